@@ -582,14 +582,25 @@ def check_c13(A: Analysis) -> Dict[str, Any]:
 
     sim = A.sim
     items = A.items
-    hookspecs = {e.event_id: e for e in sim.events if hasattr(e, "hookspecs")}
+    # which probe events exist, and with which hooks, comes from the CONFIGURATION (events are created session by session,
+    # in list order, with consecutive ids) -- not from what the simulator ended up registering
+    hookspecs = {}
+    rewrite_of = {}
+    eid = 0
+    for sc in A.sess_cfg:
+        for name in sc.get("events", []):
+            ec = A.cfg[name]
+            if ec.get("class") in ("VProbeEvent", "VSnapEvent"):
+                hookspecs[eid] = ec["hooks"]
+                rewrite_of[eid] = ec.get("rewrite")
+            eid += 1
     occ = collections.Counter()
     got = collections.Counter()
 
     def fire(evtype, before, t, market=None, ident=None):
-        for eid, e in hookspecs.items():
+        for eid, specs in hookspecs.items():
             n = 0
-            for (typ, b, tl, cls, inst) in e.hookspecs:
+            for (typ, b, tl, cls, inst) in specs:
                 if typ != evtype or b != before:
                     continue
                 if tl is not None and t not in tl:
@@ -637,9 +648,8 @@ def check_c13(A: Analysis) -> Dict[str, Any]:
                 ident = ("o", o.market_id, o.order_id)
                 if kw["snap"]["order_id"] is not None or kw["snap"]["placed_at"] is not None or kw["in_book"]:
                     raise Violation("C13.before_order_runs_before_acceptance", f"order already had id {kw['snap']['order_id']} / time {kw['snap']['placed_at']} / in book {kw['in_book']}")
-                ev = sim.id2event[kw["event"]]
-                if getattr(ev, "rewrite", None):
-                    rewrites[id(o)].append(ev.rewrite)
+                if rewrite_of.get(kw["event"]):
+                    rewrites[id(o)].append(rewrite_of[kw["event"]])
             else:
                 ident = ("o", kw["log"].market_id, kw["log"].order_id)
                 if kw["log"].time != clock:
